@@ -5,7 +5,7 @@ from .c03 import make_file
 
 RULE = ("real Pose.read calls in real threads under a deterministic line-level scheduler (sys.settrace; yield points = every source line of the modules that reference the "
         "process-global header cache, found by an ast scan of the working tree); pairs (thorough: also triples) of files with equal / different headers, bytes and windowed stream sources, "
-        "cache initially {empty, A, B}; all single-preemption schedules, double-preemption schedules exhaustively (thorough) or sampled (quick); per thread: result vs its single-threaded result "
+        "cache initially {empty, A, B}; all single-preemption schedules, double-preemption schedules exhaustively (thorough) or sampled (quick); per thread, and for one read of each file that follows the concurrent ones: result vs its single-threaded result "
         "(oracle), and header/hit-miss vs the Lean protocol model run on the observed order of cache sections; non-trivial = distinct (files, sources, cache, schedule)")
 ASSUMPTIONS = ["CPython's GIL makes one attribute load/store and one lock acquire/release atomic; preemption inside a source line or inside C extensions is not explored",
                "preemption points are source lines of pose_format modules; of a line executed many times in a loop only the first occurrences are preemption candidates"]
@@ -105,9 +105,30 @@ def explore(ctx, rng, files_traced, log):
                         ctx.violation("a concurrent read raises although the same read succeeds alone", info, {"thread": t, "error": r[1]}, True, size=len(schedule), signature={"clause": "raises"})
                     elif pc.diff(e, r[1]):
                         ctx.violation("a concurrent read returns another result than the same read alone", info, {"thread": t, "first_difference": pc.diff(e, r[1])}, True, size=len(schedule), signature={"clause": "differs"})
+                # reads that FOLLOW the concurrent ones (main thread, no scheduler) are reads too: the file the cache was last filled for first
+                # (the one that will hit), then the other one — as threads 2 and 3 of the same history
+                upd = [t for t, kind, _ in log if t is not None and kind == "update"]
+                hitter = upd[-1] if upd else (names.index(cache0) if cache0 in names else 0)
+                post_files, res = [], list(res)
+                for extra, t in enumerate((hitter, 1 - hitter)):
+                    S.CUR.tid = len(fns) + extra
+                    try:
+                        try:
+                            r = ("ok", fns[t]())
+                        except Exception as e:
+                            r = ("error", "%s: %s" % (type(e).__name__, str(e)[:120]))
+                    finally:
+                        S.CUR.tid = None
+                    post_files.append(names[t]); res.append(r)
+                    ctx.count("following_reads")
+                    if r[0] != "ok":
+                        ctx.violation("a read that follows concurrent reads raises although the same read succeeds alone", dict(info, following_reads=post_files), {"file": names[t], "error": r[1]}, True, size=len(schedule), signature={"clause": "after-raises"})
+                    elif pc.diff(expected[t], r[1]):
+                        ctx.violation("a read that follows concurrent reads returns another result than the same read alone (the shared cache was left inconsistent)", dict(info, following_reads=post_files),
+                                      {"file": names[t], "first_difference": pc.diff(expected[t], r[1])}, True, size=len(schedule), signature={"clause": "after-differs"})
                 order = [t for t, kind, _ in log if t is not None]
-                reqs.append({"op": "schedule", "files": [pool[n].hex() for n in names], "cache0": None if cache0 is None else pool[cache0].hex(), "sched": order})
-                meta.append((info, res, [(t, k, h) for t, k, h in log if t is not None]))
+                reqs.append({"op": "schedule", "files": [pool[n].hex() for n in names + post_files], "cache0": None if cache0 is None else pool[cache0].hex(), "sched": order})
+                meta.append((dict(info, following_reads=post_files), res, [(t, k, h) for t, k, h in log if t is not None]))
                 return trace
             # how many steps does each thread take alone?
             # preemption candidates: step k of a thread's solo run is a candidate when its source line occurred at most `reps` times before
